@@ -74,6 +74,10 @@ def run(chk):
         dm = [n for n in own_nodes(f.node) if isinstance(n, ast.Assign) and src(n.value) == "divmod(self.offset, 8)" and src(n.targets[0]) == "(byte_offset, bit_offset)"]
         chk.check(len(dm) == 1, "R6", f"{B}:{f.qualname} | byte/bit offset = divmod(self.offset, 8)", f.loc(), "")
     chk.check(src(gi.test) == src(si.test), "R6", f"{B}:PdoVariable | same aligned/unaligned predicate", g.loc(gi), f"get: {src(gi.test)}; set: {src(si.test)}")
+    for f, iff in ((g, gi), (s, si)):
+        chk.check(_pred_ok(iff.test), "R6", f"{B}:{f.qualname} | bit-level path for every field that is not whole bytes at a byte boundary", f.loc(iff),
+                  f"`{src(iff.test)}` sends a sub-byte field that starts on a byte boundary (or a shifted whole-byte field) down the byte-aligned path: a whole byte is "
+                  f"read/written and the neighbouring fields in that byte are overwritten")
     wit = must_pass(fs.cfg, lambda n: node_calls(n, "self.pdo_parent.update"))
     chk.check(wit is None, "R6", f"{B}:PdoVariable.set_data | ends in pdo_parent.update()", s.loc(), f"{path_text(wit) if wit else ''}")
 
@@ -90,12 +94,20 @@ def run(chk):
 
 
 def _unaligned_if(f) -> Optional[ast.If]:
+    """The `if` that separates the bit-level path from the byte-aligned one (its test mentions bit_offset)."""
     for n in own_nodes(f.node):
-        if isinstance(n, ast.If) and "bit_offset" in src(n.test) and "self.length" in src(n.test):
-            t = n.test
-            if isinstance(t, ast.BoolOp) and isinstance(t.op, ast.Or) and {src(v) for v in t.values} == {"bit_offset", "self.length % 8"}:
-                return n
+        if isinstance(n, ast.If) and "bit_offset" in src(n.test):
+            return n
     return None
+
+
+def _pred_ok(test: ast.expr) -> bool:
+    """unaligned <=> bit_offset != 0 or length % 8 != 0"""
+    if isinstance(test, ast.BoolOp) and isinstance(test.op, ast.Or):
+        parts = {src(v) for v in test.values}
+        return parts in ({"bit_offset", "self.length % 8"}, {"bit_offset != 0", "self.length % 8 != 0"}, {"bit_offset > 0", "self.length % 8 > 0"},
+                         {"bit_offset", "self.length % 8 != 0"}, {"bit_offset != 0", "self.length % 8"})
+    return False
 
 
 def _forward(stmts: List[ast.stmt], env: Optional[Dict[str, ast.expr]] = None, flat_ifs: bool = False):
